@@ -30,8 +30,15 @@ import collections
 
 INV = {"L": "R", "R": "L", "+": "-", "-": "+"}
 
-_WCC = {"a": "t", "t": "a", "A": "T", "T": "A", "c": "g", "g": "c", "C": "G",
-        "G": "C", "n": "n", "N": "N"}
+# IUPAC nucleotide codes and their complements (written from the IUPAC table:
+# R=AG Y=CT, K=GT M=AC, S=CG and W=AT are their own complements, B=CGT V=ACG,
+# D=AGT H=ACT, N any); case is preserved
+_WCC = {}
+for _a, _b in (("A", "T"), ("C", "G"), ("R", "Y"), ("K", "M"), ("S", "S"),
+               ("W", "W"), ("B", "V"), ("D", "H"), ("N", "N")):
+  for _x, _y in ((_a, _b), (_b, _a)):
+    _WCC[_x] = _y
+    _WCC[_x.lower()] = _y.lower()
 
 
 def rc(seq):
